@@ -1,0 +1,8 @@
+//go:build !verif
+// +build !verif
+
+package zap
+
+// verifPoll is a verification hook (see verif_hooks_on.go); without the
+// "verif" build tag it is an empty function that the compiler inlines away.
+func verifPoll(closeCh chan struct{}) {}
